@@ -58,6 +58,7 @@ PROPERTY_RULES: Dict[str, List[Scoped]] = {
         _r("UPDATE-PAIRING"), _r("RETENTION-GUARDS"), _r("POLARITY"),
         _r("CLOSURE-LATE-BINDING", ("compute.reconciliation:", "utils.dynamic_programming:")),
         _r("RMQ-WINDOWS"), _r("EULER-INDEX"),
+        _r("VARARGS-AS-GIVEN"),
     ],
     "C02": [
         _r("SENTINEL", S_SPFS, S_SUBSEQ), _r("COSTKEYS", S_SPFS), _r("PRUNE", S_SPFS), _r("EVENT-SIG", S_SPFS),
@@ -78,6 +79,7 @@ PROPERTY_RULES: Dict[str, List[Scoped]] = {
         _r("CLOSURE-LATE-BINDING", ("compute.super_reconciliation:", "utils.dynamic_programming:")),
         _r("RMQ-WINDOWS"), _r("EULER-INDEX"),
         _r("EVAL-NO-SHORTCUT"),
+        _r("VARARGS-AS-GIVEN"),
     ],
     "C03": [
         _r("READONLY-DECODE", S_USPFS), _r("COSTKEYS", S_USPFS), _r("PRUNE", S_USPFS), _r("EVENT-SIG", S_USPFS),
@@ -99,6 +101,7 @@ PROPERTY_RULES: Dict[str, List[Scoped]] = {
         _r("KINDS-COMPLETE"),
         _r("RMQ-WINDOWS"), _r("EULER-INDEX"),
         _r("EVAL-NO-SHORTCUT"),
+        _r("VARARGS-AS-GIVEN"),
     ],
     "C04": [
         _r("DECODE-GUARD"), _r("DECODE-COMPLETE"), _r("LEAF-ANCHOR"), _r("SENTINEL"), _r("READONLY-DECODE"),
@@ -133,6 +136,8 @@ PROPERTY_RULES: Dict[str, List[Scoped]] = {
         _r("CLOSURE-LATE-BINDING", S_COMPUTE + S_DP),
         _r("KINDS-COMPLETE"),
         _r("EVAL-NO-SHORTCUT"),
+        _r("VARARGS-AS-GIVEN"),
+        _r("GRAPH-KEYS"),
     ],
     "C06": [
         _r("MODEL-TABLE"), _r("LABEL-SIBLINGS"), _r("EVENT-EXHAUSTIVE"), _r("EVENT-TABLE"), _r("CONSERVED-SIDE"),
@@ -145,6 +150,7 @@ PROPERTY_RULES: Dict[str, List[Scoped]] = {
         _r("NAME-AS-KEY", ("utils.trees:LowestCommonAncestor",)),
         _r("DICT-KEYS"),
         _r("RMQ-WINDOWS"), _r("EULER-INDEX"),
+        _r("COST-OPTIONS"),
     ],
     "C07": [
         _r("LCA-PROPAGATE"), _r("TRAVERSAL", ("compute.reconciliation:reconcile_lca",)),
@@ -223,6 +229,7 @@ PROPERTY_RULES: Dict[str, List[Scoped]] = {
         _r("FEATURE-COPY"), _r("FINITE-ARITH"), _r("COST-NO-ROUNDING"), _r("TREE-ITER-EXPLICIT", S_CLI + S_MODEL),
         _r("IDENTITY-KEYS"), _r("EVENT-SIG"), _r("CLASS-DOMAIN"), _r("MIRROR"),
         _r("BRANCH-COMPLETE-ASSIGN"), _r("JSON-INFINITE-COSTS"), _r("MAPPING-KEYING"),
+        _r("UNPACK-SPLIT"),
     ],
     "C13": [
         _r("KIND-EXHAUSTIVE"), _r("KIND-AGREE"), _r("ONE-EVENT-NODE"), _r("ONE-ARROW"), _r("LOSS-MARKERS"),
@@ -255,6 +262,7 @@ PROPERTY_RULES: Dict[str, List[Scoped]] = {
         _r("READONLY-INPUT", S_RENDER),
         _r("WRAP-AFTER-ESCAPE"), _r("DRAW-COLOR-OWN"),
         _r("LABEL-LINEBREAKS"), _r("LOSS-COLOR-OWN"),
+        _r("UNPACK-SPLIT", S_RENDER), _r("RECORD-FIELDS-AGREE"), _r("PARAM-NOT-REWRITTEN"),
     ],
     "C16": [
         _r("UPDATE-PAIRING"), _r("RETENTION-GUARDS"), _r("POLARITY"), _r("PROXY-NONE"), _r("COMBINE-PRODUCT"),
@@ -265,6 +273,7 @@ PROPERTY_RULES: Dict[str, List[Scoped]] = {
         _r("ITERABLE-ONCE", S_DP),
         _r("PROXY-UPDATE-GATE"),
         _r("TAG-TEST-CONSISTENT"),
+        _r("VARARGS-AS-GIVEN"),
     ],
     "C17": [
         _r("DERIVED-QUERIES"), _r("EULER-INDEX"), _r("RMQ-WINDOWS"),
@@ -788,6 +797,18 @@ _DECIDED_ROUND8 = {
     'C18': ['mask_from_subseq / subseq_from_mask answer from the scan alone: no shortcut return, nothing depending on the type of the sequences (BIT-ORDER answer-from-the-scan)'],
     'C20': ['the triples of a group are all triples of the call inside the group; AllTrees answers [] only on the verdict of OneTree (TRIPLES-RECURSION)'],
 }
+_DECIDED_ROUND9 = {
+    'C01': ['update hands on the batch it was given; a cell written for the first time starts empty (VARARGS-AS-GIVEN)'],
+    'C05': ['update hands on the batch it was given; a cell written for the first time starts empty (VARARGS-AS-GIVEN); successor sets of the precedence graph are extended, never replaced by a dictionary merge (GRAPH-KEYS)'],
+    'C06': ['each --cost-* option sets the documented unit cost (COST-OPTIONS option-of-each-cost); cost() is exactly the documented sum of its parts, nothing is charged above the root of the object tree (EVAL-NO-SHORTCUT sum-of-parts)'],
+    'C10': ['the host species of the root object are neither restricted nor filtered (RESULT-SCOPE)'],
+    'C12': ['a `<species>_<id>` leaf name is split from the right, once (UNPACK-SPLIT); cost options are evaluated as expressions (COST-NO-ROUNDING expressions)'],
+    'C15': ['every kind of branch record treats the colour alike (RECORD-FIELDS-AGREE); get_color never replaces the colour it is asked for (PARAM-NOT-REWRITTEN); leaf names split from the right (UNPACK-SPLIT)'],
+    'C16': ['update hands on the batch it was given: the vararg is never rebound or unpacked, and a cell written for the first time is created empty (VARARGS-AS-GIVEN)'],
+}
+for _k9, _v9 in _DECIDED_ROUND9.items():
+    _DECIDED_ROUND8.setdefault(_k9, [])
+    _DECIDED_ROUND8[_k9] = _DECIDED_ROUND8[_k9] + _v9
 for _k8, _v8 in _DECIDED_ROUND8.items():
     _DECIDED_ROUND7.setdefault(_k8, [])
     _DECIDED_ROUND7[_k8] = _DECIDED_ROUND7[_k8] + _v8
